@@ -337,6 +337,12 @@ func (f *Func) reachTarget(
 	verifPoint("reach.enter", f)
 	defer verifPoint("reach.exit", f)
 
+	// Track that we are in the process of reaching this target so that
+	// dependency cycles spanning multiple functions are detected below.
+	targetID := graph.VertexID(target)
+	state.Active[targetID] = struct{}{}
+	defer delete(state.Active, targetID)
+
 	// argMap will store all the values that this target depends on.
 	argMap := map[interface{}]reflect.Value{}
 
@@ -414,9 +420,13 @@ func (f *Func) reachTarget(
 			input = paths[i][1]
 		}
 
-		// If the path contains ourself, then this target is unsatisfied.
+		// If the path contains ourself, or any other function that is
+		// currently being reached further up the stack (a dependency cycle
+		// across multiple functions), then this target is unsatisfied.
 		for _, v := range paths[i] {
-			if v == target {
+			_, isFunc := v.(*funcVertex)
+			_, active := state.Active[graph.VertexID(v)]
+			if v == target || (isFunc && active) {
 				valueable, ok := current.(valueConverter)
 				if !ok {
 					// This shouldn't be possible
@@ -636,6 +646,9 @@ type callState struct {
 
 	// TODO
 	InputSet map[interface{}]graph.Vertex
+
+	// Active is the set of function vertices currently being reached.
+	Active map[interface{}]struct{}
 }
 
 func newCallState() *callState {
@@ -643,5 +656,6 @@ func newCallState() *callState {
 		NamedValue: map[string]reflect.Value{},
 		TypedValue: map[reflect.Type]reflect.Value{},
 		InputSet:   map[interface{}]graph.Vertex{},
+		Active:     map[interface{}]struct{}{},
 	}
 }
